@@ -116,9 +116,16 @@ def reason (X : Compile.TP) (ti : TreeInfo) (root : GoNode) : String :=
         else if (writerCaps ti).2.isSome && decide (6 ≤ Compile.tier root) then "caps-map" else "unknown"
   | _ => "root"
 
-/-- the smallest `k ∈ {1,…,9}` with `Compile.InFrag k` -/
+/-- the smallest `k ∈ {1,…,8}` with `Compile.InFrag k` (tier 9, ECMAScript boundaries, has no pattern in the
+    specification: `toPat` fails there) -/
 def cover (X : Compile.TP) (ti : TreeInfo) (root : GoNode) : Option Nat :=
-  [1, 2, 3, 4, 5, 6, 7, 8, 9].find? (fun k => Compile.InFrag k X ti root)
+  [1, 2, 3, 4, 5, 6, 7, 8].find? (fun k => Compile.InFrag k X ti root)
+
+/-- the name of the theorem `Props.C01.compile_correct_<name>` whose fragment is tier `k` -/
+def tierName (k : Nat) : String :=
+  match k with
+  | 4 => "T4a" | 5 => "T4b" | 6 => "T4c" | 7 => "T4d" | 8 => "T4e"
+  | k => s!"T{k}"
 
 /-! ### both sides of the statement on one input -/
 
@@ -201,7 +208,7 @@ def handleCompile (args : List Sexp) : String :=
       let X : Compile.TP := { strict := strict, rd := Compile.readSet names }
       let cov := Cc.cover X ti root
       let cls := match cov with
-        | some k => mk "covered" [.atom s!"T{k}"]
+        | some k => mk "covered" [.atom (Cc.tierName k)]
         | none => mk "notcovered" [.atom (Cc.reason X ti root)]
       let pat := Compile.toPatRoot X ti.rtl root
       let patS := match pat with
